@@ -14,7 +14,8 @@
                    run-in-terminal section (app._running_in_terminal)
      brk_run     = scan of the terminal trace: every write comes after an
                    erase with no render in between (None = violated)
-     no_lifecycle = the label is not application start/exit/stop/loop-close *)
+     no_lifecycle = the label is not application start/exit/stop/loop-close
+     app_alive    = the label is not application start/stop/loop-close *)
 From Coq Require Import ZArith List Bool.
 From PTK Require Import Lib.Sx Model.C20_StdoutProxy
   Proofs.C20_Queue Proofs.C20_Chain Proofs.C20_Order Proofs.C20_Refuted.
@@ -60,25 +61,35 @@ Proof.
 Qed.
 Print Assumptions C20_exactly_once_noapp.
 
-(* Application running throughout (proxy created in the session the
-   callbacks see), every schedule, including foreign in_terminal sections and
-   any wake-up order: same, and every write lies between an erase and the
-   following render, inside a run-in-terminal section. *)
-Theorem C20_in_order_running : forall ls,
-  forallb no_lifecycle ls = true ->
-  let s := run (init_running true) ls in
+(* One application alive throughout (started before the run; it may exit -
+   AppExit is allowed - but is not stopped/restarted and its loop is not
+   closed), the proxy created in ANY AppSession (c), every schedule, including
+   foreign in_terminal sections and any wake-up order: same, and every write
+   made while the application runs lies inside a run-in-terminal section,
+   after an erase with no render in between.  (Before the fix commits acce0d8
+   and e58361b this failed for a proxy created inside create_app_session()
+   and across Application.exit().) *)
+Theorem C20_in_order_running : forall c ls,
+  forallb app_alive ls = true ->
+  let s := run (init_running c) ls in
   pipeline s = stream ls /\ forallb ev_ok (out s) = true /\ brk_run (out s) <> None.
 Proof. exact in_order_running. Qed.
 Print Assumptions C20_in_order_running.
 
-Theorem C20_exactly_once_running : forall ls,
-  forallb no_lifecycle ls = true -> drained (run (init_running true) ls) ->
-  out_text (run (init_running true) ls) = concat (map snd (writes ls)).
+Theorem C20_exactly_once_running : forall c ls,
+  forallb app_alive ls = true -> drained (run (init_running c) ls) ->
+  out_text (run (init_running c) ls) = concat (map snd (writes ls)).
 Proof.
-  intros ls H D. rewrite <- stream_writes, <- (drained_out _ D).
-  exact (proj1 (in_order_running ls H)).
+  intros c ls H D. rewrite <- stream_writes, <- (drained_out _ D).
+  exact (proj1 (in_order_running c ls H)).
 Qed.
 Print Assumptions C20_exactly_once_running.
+
+(* EVERY schedule (any life cycle, closed loops included): the flush thread
+   never dies (aa2fd63: RuntimeError from a closed loop is caught). *)
+Theorem C20_flush_thread_never_dies : forall c ls, fth (px (run (init c) ls)) <> FCrash.
+Proof. exact never_dies. Qed.
+Print Assumptions C20_flush_thread_never_dies.
 
 (* EVERY schedule: run-in-terminal sections start in submission order (ids are
    handed out at submission), whatever the order of wake-ups. *)
@@ -115,33 +126,37 @@ Print Assumptions C20_example_running.
 
 (* ---- where the model (the code as it is) violates the property text ---- *)
 
-(* Start race: without the no_lifecycle hypothesis the bracket fails. *)
+(* Start race (known finding F3a): an AppStart between _get_app_loop and
+   _write_and_flush breaks the bracket. *)
 Theorem C20_bracket_start_refuted : exists ls,
   all_enabled (init true) ls = true /\
   forallb ev_ok (out (run (init true) ls)) = false /\ brk_run (out (run (init true) ls)) = None.
 Proof. exists w_start. exact start_race. Qed.
 Print Assumptions C20_bracket_start_refuted.
 
-(* Application in another AppSession than the one the flush thread's context
-   shows: C20_in_order_running's bracket fails for ctx = false. *)
-Theorem C20_bracket_session_refuted : exists ls,
-  forallb no_lifecycle ls = true /\ all_enabled (init_running false) ls = true /\
-  forallb ev_ok (out (run (init_running false) ls)) = false /\
-  brk_run (out (run (init_running false) ls)) = None.
-Proof. exists w_ctx. exact ctx_unbracketed. Qed.
-Print Assumptions C20_bracket_session_refuted.
+(* The witnesses of the three repaired findings, now in order / bracketed /
+   delivered (regression examples; the schedules are in corpus/C20). *)
+Example C20_example_other_session : forallb no_lifecycle w_ctx = true /\
+  all_enabled (init_running false) w_ctx = true /\
+  forallb ev_ok (out (run (init_running false) w_ctx)) = true /\
+  brk_run (out (run (init_running false) w_ctx)) = Some false /\
+  out_text (run (init_running false) w_ctx) = ta.
+Proof. exact ctx_bracketed. Qed.
+Print Assumptions C20_example_other_session.
 
-(* Exit while a foreign in_terminal section is open: nothing lost, everything
-   delivered, but "b\n" written before "a\n" of the same thread. *)
-Theorem C20_order_exit_refuted : exists ls,
-  all_enabled (init true) ls = true /\ lost (run (init true) ls) = [] /\
-  pipeline (run (init true) ls) = out_text (run (init true) ls) /\
-  out_text (run (init true) ls) <> stream ls.
-Proof.
-  exists w_exit. destruct exit_reorder as [A [B [C [D E]]]].
-  repeat split; try assumption. rewrite B, C. discriminate.
-Qed.
-Print Assumptions C20_order_exit_refuted.
+Example C20_example_exit_in_terminal : all_enabled (init true) w_exit = true /\
+  stream w_exit = ta ++ tb /\ out_text (run (init true) w_exit) = ta ++ tb /\
+  lost (run (init true) w_exit) = [] /\
+  pipeline (run (init true) w_exit) = out_text (run (init true) w_exit).
+Proof. exact exit_in_order. Qed.
+Print Assumptions C20_example_exit_in_terminal.
+
+Example C20_example_closed_loop : all_enabled (init true) w_crash = true /\
+  fth (px (run (init true) w_crash)) = FExit /\
+  out_text (run (init true) w_crash) = ta ++ tb /\ lost (run (init true) w_crash) = [] /\
+  drained (run (init true) w_crash).
+Proof. exact closed_loop_ok. Qed.
+Print Assumptions C20_example_closed_loop.
 
 (* Stop race: text handed to a loop nobody runs any more is overtaken and,
    when that loop is closed, lost; the flush thread exits normally. *)
@@ -154,15 +169,3 @@ Proof.
 Qed.
 Print Assumptions C20_stop_race_refuted.
 
-(* Stop race with the loop already closed: the flush thread dies and, for every
-   continuation, never takes anything from the queue again. *)
-Theorem C20_stop_crash_refuted : exists ls,
-  all_enabled (init true) ls = true /\ fth (px (run (init true) ls)) = FCrash /\
-  out_text (run (init true) ls) = [] /\ stream ls <> [] /\
-  forall l, fth (px (step (run (init true) ls) l)) = FCrash.
-Proof.
-  exists w_crash. destruct stop_crash as [A [B [C D]]].
-  repeat split; try assumption; [discriminate|].
-  intros l. exact (proj1 (crash_absorbing l _ B)).
-Qed.
-Print Assumptions C20_stop_crash_refuted.
